@@ -62,7 +62,7 @@ def reference(codec, s, T, spec):
 
 
 DOUBLES = ('horizon', 'seekable', 'pipe')
-CAPPED = ('seekable-capped', 'pipe-capped')       # hand out at most 1..3 octets per read although more may be there
+CAPPED = ('seekable-capped', 'pipe-capped', 'buffered')       # hand out at most 1..3 octets per read although more may be there
 
 
 def drive(kind, codec, s, sizes, polls, eof_late, T, spec):
@@ -71,6 +71,8 @@ def drive(kind, codec, s, sizes, polls, eof_late, T, spec):
         st = streams.HorizonBytesIO(s)
     elif kind == 'seekable':
         st = streams.SeekableFeed()
+    elif kind == 'buffered':
+        st = streams.BufferedFeed()
     elif kind == 'seekable-capped':
         st = streams.SeekableFeed(max_read=1 + len(sizes) % 3)
     elif kind == 'pipe-capped':
